@@ -109,14 +109,14 @@ def model_xml(name, v):
     # clamped ctrl, overlapping parent/child capsules (FILTERPARENT), a stiff contact (REFSAFE), sensors of all stages
     return f"""<mujoco><compiler angle="radian"/><option timestep="0.004"/>
 <worldbody>
- <geom name="floor" type="plane" size="3 3 .1"/>
+ <geom name="floor" type="plane" size="3 3 .1" solref="0.004 1"/>
  <body name="a1" pos="0 0 0.6" gravcomp="0.5">
-  <joint name="ja1" type="hinge" axis="0 1 0" limited="true" range="-0.3 0.3" stiffness="{2 * k:g}" springref="0.1" damping="0.3" frictionloss="0.1" armature="0.02" actuatorgravcomp="true"/>
+  <joint name="ja1" type="hinge" axis="0 1 0" limited="true" range="-0.3 0.3" stiffness="{2 * k:g}" springref="0.1" damping="0.3" frictionloss="0.1" armature="0.02" actuatorgravcomp="true" solreflimit="0.005 1"/>
   <geom name="ga1" type="capsule" fromto="0 0 0 0.3 0 0" size="0.05" mass="0.8"/>
   <site name="sa1" pos="0.15 0 0.02"/>
   <body name="a2" pos="0.3 0 0" gravcomp="0.3">
    <joint name="ja2" type="hinge" axis="0 1 0" limited="true" range="-1 1" stiffness="{k:g}" damping="0.2" frictionloss="0.05"/>
-   <geom name="ga2" type="capsule" fromto="0 0 0 0.3 0 0" size="0.06" mass="0.6"/>
+   <geom name="ga2" type="capsule" fromto="0.02 0 0.04 0.3 0 0.04" size="0.06" mass="0.6"/>
    <site name="sa2" pos="0.3 0 0"/>
    <body name="a3" pos="0.3 0 0">
     <joint name="ja3" type="ball" damping="0.1" stiffness="0.5"/>
@@ -139,9 +139,9 @@ def model_xml(name, v):
 </sensor>
 </mujoco>"""
   if name == "free":
-    # implicitfast; free bodies on the floor, sphere-capsule contact, weld + connect equality, spatial tendon with limit,
+    # Euler (integrator differences are C08's subject; with RK4 the post-step force arrays belong to the last stage); free bodies on the floor, sphere-capsule contact, weld + connect equality, spatial tendon with limit,
     # spring, damper and frictionloss, tendon actuator, slide joint with spring
-    return f"""<mujoco><compiler angle="radian"/><option timestep="0.004" integrator="implicitfast"/>
+    return f"""<mujoco><compiler angle="radian"/><option timestep="0.004"/>
 <worldbody>
  <geom name="floor" type="plane" size="3 3 .1"/>
  <body name="p1" pos="0 0 0.095" gravcomp="0.4"><freejoint name="jp1"/><geom name="gp1" type="sphere" size="0.1" mass="0.7"/><site name="sp1" pos="0 0 0.1"/></body>
@@ -177,7 +177,8 @@ def model_xml(name, v):
     '<sensor><framepos objtype="site" objname="s2"/><jointpos joint="j1"/><framelinvel objtype="site" objname="s3"/>'
     '<jointvel joint="j3"/><actuatorfrc actuator="m1"/><framelinacc objtype="site" objname="s2"/></sensor>'
   )
-  floor = '<geom name="floor" type="plane" size="3 3 .1" pos="0 0 -0.1"/>'
+  # floor 6 mm above the lowest sphere of the state used (one shallow contact per variant)
+  floor = f'<geom name="floor" type="plane" size="3 3 .1" pos="0 0 {(0.102, -0.4767, -0.2759, -0.2873)[v]}"/>'
   return space.tree_xml(
     [0, 1, 1],
     ["hinge", "ball", "hingeslide"],
@@ -188,7 +189,8 @@ def model_xml(name, v):
     sections=sections,
     collide=True,
     body_extra=lambda i: "",
-    option='<option timestep="0.004"/>',
+    # a single solver iteration: the result then depends on the starting point, which makes WARMSTART observable
+    option='<option timestep="0.004" iterations="1"/>',
   ).replace('<body name="b1"', '<body name="b1" gravcomp="0.6"', 1)
 
 
@@ -306,10 +308,17 @@ def execute(scn):
   for term, owners in TERMS.items():
     if fs & owners:
       continue
+    if {"SPRING", "DAMPER"} <= fs and term in ("qfrc_gravcomp", "qfrc_passive", "qfrc_actuator"):
+      continue  # MuJoCo's mj_passive returns before gravity compensation / fluid forces when springs and dampers are both disabled
     c.bits(f"{tag}:{term} changed although no flag of the subset owns it", np.asarray(got[term]), np.asarray(got0[term]), vkey=f"untouched:{term}:{fl}")
   for f in flags:
     for term in ZERO.get(f, ()):
       z = np.asarray(got[term], dtype=np.float64)
+      if term == "qfrc_constraint":
+        # the solver recovers qfrc_constraint as Ma - qfrc_smooth - grad (solver.py:_qfrc_constraint_from_grad): with no rows it
+        # is float32 round-off of that difference (2e-6 on the unchanged tree), not a force -> zero under class f32
+        c.close(f"{tag}:qfrc_constraint ~ 0 with CONSTRAINT disabled", z, np.zeros_like(z), "f32", scale=1.0 + float(np.abs(got0["qfrc_constraint"]).max()), vkey=f"zero:{term}:{f}")
+        continue
       c.true(f"{tag}:{term} must be zero with {f} disabled", not np.any(z), f"max|{term}|={np.abs(z).max() if z.size else 0:.3g}", vkey=f"zero:{term}:{f}")
   if "ENERGY" in fs:
     c.true(f"{tag}:energy computed", bool(np.any(got["energy"])), "energy is all zero with ENERGY enabled", vkey="nonzero:energy:ENERGY")
